@@ -12,7 +12,7 @@ import (
 func init() { register("C19", propC19) }
 
 func propC19(r *Report, tier string) {
-	r.Explanation = "A narrow claim (termination and panic-freedom over all byte strings are out of reach): (a) every analysis.Token composite literal built by a Tokenizer implementation sets Term, Start, End and Position (a token without Position has position 0, violating 'positive'); (b) K12 sibling agreement of the fragment formatters (html, ansi, plain): every slice of the fragment's original text has bounds drawn only from {curr, termLocation.Start, termLocation.End, f.End}; a location is skipped when it starts before the cursor (compared against the SAME cursor variable used as slice bound) and the loop stops when it ends after the fragment; the cursor only moves to termLocation.End; (c) last-element accesses x[len(x)-1] in the analysis and highlight packages are dominated by a non-emptiness fact for x (or x was just appended to)."
+	r.Explanation = "A narrow claim (termination and panic-freedom over all byte strings are out of reach): (a) every analysis.Token composite literal built by a Tokenizer implementation sets Term, Start, End and Position (a token without Position has position 0, violating 'positive'); (b) K12 sibling agreement of the fragment formatters (html, ansi, plain): every slice of the fragment's original text has bounds drawn only from {curr, termLocation.Start, termLocation.End, f.End}; a location is skipped when it starts before the cursor (compared against the SAME cursor variable used as slice bound) and the loop stops when it ends after the fragment; the cursor only moves to termLocation.End; (c) last-element accesses x[len(x)-1] in the analysis and highlight packages are dominated by a non-emptiness fact for x (or x was just appended to). (d) K6 no range loop of the analysis/highlight packages assigns to its own key variable (such an adjustment is a no-op and the loop keeps the original length)."
 	r.NotCovered = "termination and absence of index/slice panics in ~150 hand-written scanners/filters for arbitrary byte strings, offset monotonicity, token filters' offset preservation: value-range and loop-variant reasoning outside this technique"
 	ruleTokenLiteralsComplete(r, "K9b-token-fields")
 	ruleFormatterSiblings(r, "K12-formatter-bounds")
@@ -22,6 +22,7 @@ func propC19(r *Report, tier string) {
 	ruleTokenOffsetsAreByteOffsets(r, "K11-token-offsets-are-bytes")
 	ruleSentinelOffsetsGuarded(r, "K11-sentinel-offsets-guarded")
 	ruleMaskKeepsByteLength(r, "K11-mask-keeps-byte-length")
+	ruleRangeIndexNotAdjusted(r, "K6-range-index-not-adjusted")
 	ruleIndexMinusOneGuarded(r, "K5-index-minus-one-guarded", func(rel string) bool {
 		return strings.HasPrefix(rel, "analysis/") || strings.HasPrefix(rel, "search/highlight")
 	})
@@ -292,4 +293,63 @@ func ruleLastElementGuarded(r *Report, rule string) {
 		undecidedf("last-element rule matched %d sites in all of bleve (pattern recogniser broken?)", n)
 	}
 	r.Ob(rule, "analysis+highlight/all-last-element-accesses-guarded", p.Pkg("analysis").Syntax[0].Pos(), true, fmt.Sprintf("%d x[len(x)-1] accesses exist in bleve, %d of them in the analysis/highlight packages; each of those was checked above", n, nScope))
+}
+
+// ruleRangeIndexNotAdjusted (K6): the filters that delete or insert runes while
+// walking a token re-examine a position by stepping the loop index back.
+// That only works in a three-clause loop: in `for i, r := range runes` the
+// index is a per-iteration copy, so `i--` (or any assignment to it) inside the
+// body is a no-op, the loop runs over the ORIGINAL length of the slice and
+// reads past the shortened one (index out of range panic on ordinary input).
+// Every assignment to the key variable of a range loop inside its own body,
+// in the analysis and highlight packages, is reported.
+func ruleRangeIndexNotAdjusted(r *Report, rule string) {
+	p := r.P
+	n, loops := 0, 0
+	for _, fi := range p.flist {
+		rel := relPkg(fi.Pkg.PkgPath)
+		if fi.Decl == nil || fi.Decl.Body == nil || !(strings.HasPrefix(rel, "analysis") || strings.HasPrefix(rel, "search/highlight")) {
+			continue
+		}
+		info := fi.Pkg.TypesInfo
+		ast.Inspect(fi.Decl.Body, func(x ast.Node) bool {
+			rs, ok := x.(*ast.RangeStmt)
+			if !ok || rs.Tok != token.DEFINE || rs.Key == nil {
+				return true
+			}
+			key := objOf(info, rs.Key)
+			if key == nil {
+				return true
+			}
+			loops++
+			ast.Inspect(rs.Body, func(y ast.Node) bool {
+				var pos token.Pos
+				switch s := y.(type) {
+				case *ast.IncDecStmt:
+					if objOf(info, s.X) == key {
+						pos = s.Pos()
+					}
+				case *ast.AssignStmt:
+					for _, l := range s.Lhs {
+						if id, isID := l.(*ast.Ident); isID && info.Uses[id] == key {
+							pos = s.Pos()
+						}
+					}
+				}
+				if pos != token.NoPos {
+					n++
+					r.Fn(fi)
+					r.Ob(rule, fmt.Sprintf("%s/range-index-%s-adjusted#%d", fi.Name, key.Name(), n), pos, false, "the key variable of a range loop is assigned inside the loop body: the adjustment has no effect on the iteration (per-iteration copy), so a position meant to be re-examined is skipped and the loop keeps the slice's original length")
+				}
+				return true
+			})
+			return true
+		})
+	}
+	if loops < 20 {
+		undecidedf("range loops of the analysis packages not found (%d)", loops)
+	}
+	if n == 0 {
+		r.InfoOb(rule, "no-range-index-adjusted", 0, fmt.Sprintf("no range loop of the analysis/highlight packages assigns to its own key variable (%d range loops checked)", loops))
+	}
 }
